@@ -19,7 +19,7 @@ RULE = ("case = DCOP description + externals + infinity + assignment (complete o
         "complete assignment with >=1 hard and >=1 non-zero soft term, or an incomplete assignment of a DCOP with "
         ">=2 variables; distinct by sha1(case)")
 ASSUMPTIONS = ["finite costs are ints or dyadic floats (exact sums)"]
-BUDGET = {"quick": {"workers": 4, "examples": 600, "seconds": 40},
+BUDGET = {"quick": {"workers": 8, "examples": 900, "seconds": 40},
           "thorough": {"workers": 16, "examples": 5000, "seconds": 420}}
 
 INFS = [10000, 1000000000.0, "inf"]
